@@ -344,6 +344,22 @@ func TestPropOneLiners(t *testing.T) {
 	rec.ClassN("one-line family (enumerated completely)", n)
 }
 
+// TestPropLayouts enumerates the layout family completely: expressions, parameter lists, statement
+// heads and attribute lists with every placement of blanks and line breaks between their tokens.
+func TestPropLayouts(t *testing.T) {
+	shard, shards := ev.Shard()
+	gaps := oneline.QuickGaps
+	if ev.Thorough() {
+		gaps = oneline.ThoroughGaps
+	}
+	n := 0
+	oneline.EachLayout(shard, shards, gaps, func(name, src string) {
+		n++
+		check(t, src, name+": ")
+	})
+	rec.ClassN("layout family (enumerated completely)", n)
+}
+
 // TestPropFmtCmd: the same oracle with the formatting done by the `templ fmt` command's own code
 // path.
 func TestPropFmtCmd(t *testing.T) {
